@@ -403,10 +403,24 @@ def r01_4(cx):
     why = dict.fromkeys(('stores', 'guard', 'self', 'dense', 'index'))
     nls = b.calls(r'NFA::next_link$')
     h = innermost_loop(b, nls[0][0]) if len(nls) == 1 else None
+    manual = None       # the walk spelled by hand: link = states[start].sparse; while link != ZERO { ..; link = sparse[link].link }
+    if h is None and not nls and len(b.loops()) == 1:
+        from acverif.sym import live_in
+        h0 = list(b.loops())[0]
+        lv = [l for l in live_in(cx.facts, b, h0) if b.locals[l]['ty'] == 'util::primitives::StateID']
+        if len(lv) == 1:
+            h = h0
+            manual = lv[0]
+            MLINK = Sym(cx.facts, b).default_local(manual)
     if h is None:
         why = dict.fromkeys(why, 'the walk over the start state\'s transitions (one next_link loop) was not found')
     else:
         arr = [r for r in Sym(cx.facts, b, start=0, stop={h}).rows() if r.end == ('stop', h)]
+        if manual is not None:
+            for r in arr:
+                v0 = cstr(canon(strip_old(r.env.get(manual, MLINK))))
+                if not re.match(r'core::ops::Index(Mut)?::index(_mut)?\(self\.nfa\.states, %s\)\.sparse$' % re.escape(START), v0):
+                    why['stores'] = 'the walk does not start at the head of the start state\'s transition list (%s)' % v0[:120]
         if not arr:
             why['guard'] = 'the walk is never reached'
         for r in arr:
@@ -419,11 +433,32 @@ def r01_4(cx):
         for r in rows:
             nl = [c[1] for c, v in r.conds if c[0] == 'discr' and is_call(c[1], r'NFA::next_link$') and v == 1]
             sts = [(canon(strip_old(p0)), canon(v0)) for p0, v0 in r.stores()]
+            if manual is not None:
+                # visiting = the cursor is not the end-of-list marker
+                vis = None
+                for c, v in r.conds:
+                    cc = canon(strip_old(c))
+                    if cc[0] == 'op' and cc[1] in ('Eq', 'Ne'):
+                        e, iseq = (cc[2], cc[3]), cc[1] == 'Eq'
+                    elif is_call(cc, r'PartialEq::(eq|ne)$'):
+                        e, iseq = (cc[2][0], cc[2][1]), short(cc[1]).endswith('eq')
+                    else:
+                        continue
+                    ks = [cstr(e[0]), cstr(e[1])]
+                    if cstr(MLINK) in ks and 'util::primitives::StateID::ZERO' in ks:
+                        vis = (v != iseq)
+                nl = [MLINK] if vis else []
+                if vis and r.end == ('stop', h):
+                    nx = cstr(canon(strip_old(r.env.get(manual, MLINK))))
+                    if not re.match(r'core::ops::Index(Mut)?::index(_mut)?\(self\.nfa\.sparse, %s\)\.link$' % re.escape(cstr(MLINK)), nx):
+                        why['stores'] = 'the walk does not advance to sparse[link].link (%s)' % nx[:120]
+                if vis is None and r.end == ('stop', h):
+                    why['stores'] = 'the walk repeats without testing the cursor against the end-of-list marker'
             if not nl:
                 if sts:
                     why['stores'] = 'stores outside the visit of a transition'
                 continue
-            LINK = cstr(('f', ('dc', strip_old(nl[0]), 'Some'), '0'))
+            LINK = cstr(('f', ('dc', strip_old(nl[0]), 'Some'), '0')) if manual is None else cstr(MLINK)
             SP = r'core::ops::Index(Mut)?::index(_mut)?\(self\.nfa\.sparse, %s\)' % re.escape(LINK)
             sp = [(p0, v0) for p0, v0 in sts if re.match(SP + r'\.next$', cstr(p0))]
             dn = [(p0, v0) for p0, v0 in sts if is_call(p0, r'Index(Mut)?::index(_mut)?$') and cstr(p0[2][0]) == 'self.nfa.dense']
